@@ -188,3 +188,34 @@ theorem digest_repeat (c : Codec) (hc : ∀ j, c.parse (c.render j) = some j) (a
   · exact .inr ⟨_, _, he, h1⟩
 
 end Impl
+
+namespace Impl
+open Spec
+
+/-- what the end-to-end theorems assume of the disclosure strings, derived for the strings the
+issuer makes (any order): each decodes to the disclosure it was made from with the digest embedded
+for it, every disclosure has its string, and no string holds a `~` -/
+theorem wire_hyps (c : Codec) (salt : Nat → String) (decodeClaims : String → Option J)
+    (jwtDecode : String → Outcome (J × J)) (kbDecode : String → J → Outcome (J × J))
+    (addr : List (List String × String)) (T Tn : MJ) (ds : List SDisc) (strs : List String)
+    (h : markAll (c.digestFn "sha-256" salt) 0 addr T = some (Tn, ds))
+    (hc : ∀ j, c.parse (c.render j) = some j) (hperm : strs.Perm (c.wireStrs salt 0 ds)) :
+    (∀ s ∈ strs, ∃ e ∈ ds, fromBase64 ((c.rt decodeClaims jwtDecode kbDecode).env "sha-256") s =
+        .ok ⟨s, e.digest, e.key, e.value⟩) ∧
+    (∀ e ∈ ds, ∃ s ∈ strs, (c.rt decodeClaims jwtDecode kbDecode).hash "sha-256" s = e.digest) ∧
+    (∀ s ∈ strs, '~' ∉ s.toList) := by
+  obtain ⟨w1, w2⟩ := markAll_wire c "sha-256" salt addr 0 T Tn ds h
+  have henv : (c.rt decodeClaims jwtDecode kbDecode).env "sha-256" = c.env "sha-256" := rfl
+  refine ⟨?_, ?_, ?_⟩
+  · intro s hs
+    obtain ⟨e, he, n, rfl, hh, hk⟩ := w1 s (hperm.mem_iff.mp hs)
+    refine ⟨e, he, ?_⟩
+    rw [henv, fromBase64_discString c hc "sha-256" (salt n) e.key e.value hk, hh]
+  · intro e he
+    obtain ⟨s, hs, hh⟩ := w2 e he
+    exact ⟨s, hperm.mem_iff.mpr hs, hh⟩
+  · intro s hs
+    obtain ⟨e, _, n, rfl, _, _⟩ := w1 s (hperm.mem_iff.mp hs)
+    exact discString_no_tilde c _ _ _
+
+end Impl
